@@ -360,7 +360,8 @@ func typeAssert(n *node, withResult, withOk bool) {
 					value1(f).SetBool(ok)
 				}()
 			}
-			if !ok {
+			if !ok || v.node == nil {
+				ok = false
 				if !withOk {
 					panic(n.cfgErrorf("interface conversion: nil is not %v", typID))
 				}
@@ -433,6 +434,14 @@ func typeAssert(n *node, withResult, withOk bool) {
 					value1(f).SetBool(ok)
 				}()
 			}
+			if ok && val.node == nil {
+				// The value is a nil interface.
+				ok = false
+				if !withOk {
+					panic(n.cfgErrorf("interface conversion: interface is nil, not %s", rtype.String()))
+				}
+				return next
+			}
 			if ok && val.node.typ.cat != valueT {
 				m0 := val.node.typ.methods()
 				m1 := typ.methods()
@@ -463,10 +472,8 @@ func typeAssert(n *node, withResult, withOk bool) {
 			if ok {
 				v = val.value
 				leftType = val.node.typ.rtype
-			} else {
-				v = v.Elem()
+			} else if v = v.Elem(); v.IsValid() {
 				leftType = v.Type()
-				ok = true
 			}
 			ok = v.IsValid()
 			if !ok {
